@@ -144,7 +144,30 @@ def run_case(ctx, rng, ci, long=False):
             gen_opts = saved
     ds = gen.make_dataset(rng, n_inputs=rng.choice([1, 2, 3]), clim=rng.random() < 0.25, miss=rng.choice([0.0, 0.1, 0.25]),
                           max_t=6, max_l=5, max_s=5, hours=rng.choice([None, [0, 6, 12, 18], [0, 12]]))
+    blank_one_coordinate(ctx, ds, random.Random("C03-blank-%d-%d" % (ci, len(ds["inputs"][0]["cells"]))))
     return _run_case(ctx, rng, ci, ds)
+
+
+def blank_one_coordinate(ctx, ds, r):
+    """a station that was down (or a run / lead time that produced nothing) in one file: its rows are there, every data column
+    is missing. It is still a station / time / lead time of that file and takes part in the selection (own random stream)."""
+    if r.random() >= 0.3:
+        return
+    inp = r.choice(ds["inputs"])
+    dim = r.choice([2, 2, 0, 1])
+    vals = [inp["times"], inp["leadtimes"], [l[0] for l in inp["locs"]]][dim]
+    v = gen.fnum(r.choice(vals)) if dim else str(r.choice(vals))
+    for k, c in inp["cells"].items():
+        if k.split("|")[dim] == v:
+            for f in ("obs", "fcst", "pit"):
+                if f in c:
+                    c[f] = None
+            for f in ("p", "q", "e"):
+                if c.get(f):
+                    c[f] = [None] * len(c[f])
+            if c.get("o"):
+                c["o"] = {n: None for n in c["o"]}
+    ctx.count("datasets_with_an_all_missing_%s_in_one_file" % ["time", "leadtime", "location"][dim])
 
 
 def _run_case(ctx, rng, ci, ds, reps=7):
